@@ -7,7 +7,7 @@ import itertools
 
 import z3
 
-from .values import (B, I, R, NAN, Obj, PyRaise, SeqV, Unsupported, is_num, is_obj, is_sym, is_z, is_zbool,
+from .values import (B, I, R, NAN, Obj, PyRaise, SeqV, SymList, Unsupported, is_num, is_obj, is_sym, is_z, is_zbool,
                      real_of, ufunc)
 
 Phi = z3.Function("Phi", R, R)          # standard normal cdf (axioms in solver.py)
@@ -180,6 +180,8 @@ def lift(eng, x, kind=None):
         return PT((), lambda i: v, "bool")
     if isinstance(x, SeqV):
         return PT((x.n,), lambda i: real_of(x.elem(i[0])), "real")
+    if isinstance(x, SymList):
+        return from_symlist(eng, x)
     v = eng.to_arith(x)
     return PT((), lambda i: v, "int" if v.is_int() else "real")
 
@@ -209,6 +211,21 @@ def from_nested(eng, x):
             r = z3.If(j == k, _cast(subs[k].fn(rest), subs[k].kind, kind), r)
         return r
     return PT((len(subs),) + sh, fn, kind)
+
+
+def from_symlist(eng, x):
+    """tensor from a list of symbolic length whose generic element is a scalar or a nested list"""
+    probe = x.at(eng, z3.Int("i!probe"))
+    if isinstance(probe, (list, tuple)):
+        inner = from_nested(eng, probe)
+        sh = inner.shape
+
+        def fn(idx):
+            return from_nested(eng, x.at(eng, idx[0])).fn(idx[1:])
+        return PT((x.n,) + sh, fn, inner.kind)
+    if isinstance(probe, PT):
+        return PT((x.n,) + probe.shape, lambda idx: x.at(eng, idx[0]).fn(idx[1:]), probe.kind)
+    return PT((x.n,), lambda idx: eng.to_real(x.at(eng, idx[0])), "real")
 
 
 def _cast(v, frm, to):
@@ -339,8 +356,7 @@ def tolist(eng, t):
     n = t.shape[0]
     if not isinstance(n, int):
         if t.ndim == 1:
-            i = z3.Int("i!tl")
-            return SeqV(z3.Lambda([i], eng.box(t.fn((i,)))), n)
+            return SymList(n, lambda e, i: t.fn((i,)))
         raise Unsupported("tolist on symbolic leading extent")
     return [tolist(eng, t.getitem(eng, k)) for k in range(n)]
 
@@ -408,7 +424,7 @@ class TensorLib:
             t = x
         elif isinstance(x, (list, tuple)):
             t = from_nested(eng, x)
-        elif isinstance(x, SeqV):
+        elif isinstance(x, (SeqV, SymList)):
             t = lift(eng, x)
         elif is_obj(x):
             if dtype == "bool":
@@ -595,6 +611,13 @@ class TensorLib:
 
         def fn(idx):
             j = idx[axis]
+            jc = j if isinstance(j, int) else (z3.simplify(j).as_long() if z3.is_int_value(z3.simplify(j)) else None)
+            if jc is not None and all(isinstance(o, int) for o in offs):
+                for k in range(len(ts)):
+                    if offs[k] <= jc < offs[k + 1]:
+                        loc = idx[:axis] + (z3.IntVal(jc - offs[k]),) + idx[axis + 1:]
+                        return _cast(ts[k].fn(loc), ts[k].kind, kind)
+                raise PyRaise(IndexError, ("concatenate index",))
             r = None
             for k in range(len(ts) - 1, -1, -1):
                 loc = idx[:axis] + (j - offs[k],) + idx[axis + 1:]
